@@ -20,14 +20,26 @@ func TestC12(t *testing.T) {
 		"Oracle: precedence model over the description (never over the error value), never-2xx / never gRPC OK, HTTP == gRPC, no body unless verbose, body type " +
 		"acceptable for a well-formed Accept and parsable. e2e level: decision, proxy and Envoy gRPC services assembled with fx, real default/redirect/" +
 		"www_authenticate error handlers, probe authorizer producing every failure kind and panics; the handler that ran is read from the recorded trace. " +
-		"A unit case is non-trivial when the chain mixes >=2 response classes or the deciding kind is only reachable through a wrapper; an e2e case when the probe failed or panicked.")
+		"Rules referencing the www_authenticate handlers of the catalogue with a realm of their own (also conditionally, next to handlers used as configured in the catalogue) have to name the realm of the rule on all three entry points; " +
+		"a rule overriding `to`/`code` of the redirect handler (documented as not overridable) is either refused or answered with the rule's values. " +
+		"Failures of real mechanisms: 10 CEL expressions over query, headers, JSON body, subject attributes and the payload of a remote system, each with request data for which it holds, does not hold and " +
+		"cannot be evaluated (missing map key, index out of range, division by zero, operand of the wrong type, failing conversion, no payload), used as cel authorizer, as rule level expressions of a cel authorizer, " +
+		"as `if` of a denying pipeline step, as `if` of an error handler, as remote authorizer and as its rule level expressions: 'does not hold' = authorization class (or step/handler not applicable), " +
+		"'cannot be evaluated' = internal class on every entry point, never success and never the answer for 'does not hold'. " +
+		"A unit case is non-trivial when the chain mixes >=2 response classes or the deciding kind is only reachable through a wrapper; an e2e case when the probe failed or panicked or the expression does not let the request pass.")
 	r.Assume(
-		"status overrides are taken from 400-599 and redirect codes from 3xx (a configured 2xx would contradict 'never success' by configuration)",
+		"status overrides are taken from 400-599 and redirect codes from 3xx (a configured 2xx would contradict 'never success' by configuration; a configured 1xx makes net/http send an interim response "+
+			"followed by 200 while Envoy is handed the 1xx, and a value outside 100-999 panics in WriteHeader and is answered with 500 - operator configuration values outside the statement, not exercised)",
 		"a foreign context.DeadlineExceeded / io.EOF is 'anything else' (500); only heimdall's communication kinds map to 502",
 		"when a chain carries two different RedirectErrors either of them may be answered; HTTP and gRPC must pick the same",
 		"an Accept value the harness' RFC 7231 parser does not recognise as well-formed is not judged for acceptability; an absent body is always allowed",
 		"gRPC requests carry the Accept header the way Envoy hands it over: lower-case key, several lines joined by a comma",
 		"text/html bodies are only checked for valid UTF-8 (no HTML parser in the module)",
+		"the content type of a verbose body is judged per response against the Accept header of the request; where several types are acceptable the HTTP and the gRPC translator may pick different ones "+
+			"(e.g. Accept */*: text/html vs application/json) and for an Accept value that is empty or not well-formed the HTTP translator sends no body while the gRPC translator sends text/html - both are "+
+			"recorded as counters (unit_http_grpc_body_*), not judged; 'well-formed Accept, nothing acceptable' is the open finding grpc-unnegotiated-html-body",
+		"a CEL expression that cannot be evaluated for the data of the request (runtime error of the expression) is none of the named failure kinds: 'anything else 500'; this also holds for the condition of a "+
+			"pipeline step or of an error handler (the request is not continued as if the condition were false)",
 	)
 
 	if rp := r.Replay; rp != nil {
@@ -57,6 +69,13 @@ func TestC12(t *testing.T) {
 	r.Require("e2e_redirect_cases", r.Counter("e2e_redirect_cases"), 30)
 	r.Require("e2e_default_cases", r.Counter("e2e_default_cases"), 30)
 	r.Require("e2e_panic_cases", r.Counter("e2e_panic_cases"), 12)
+	r.Require("e2e_www_cases_realm_of_the_rule", r.Counter("e2e_www_cases_realm_of_the_rule"), 100)
+	r.Require("e2e_real_expression_cannot_be_evaluated", r.Counter("e2e_real_expression_"+unevalb), 100)
+	r.Require("e2e_real_expression_does_not_hold", r.Counter("e2e_real_expression_"+holdsNo), 50)
+	r.Require("e2e_real_passing_requests", r.Counter("e2e_real_passing_requests"), 50)
+	for _, pos := range []string{posCEL, posCELRule, posStepIf, posEHIf, posRemote, posRemoteOvr} {
+		r.Require("e2e_real_unevaluable_"+pos, r.Counter("e2e_real_unevaluable_"+pos), 20)
+	}
 	r.End()
 }
 
